@@ -1245,7 +1245,12 @@ pub fn judge_c01(case: &HCase, run: &Run<()>) -> Outcome {
         o.label(format!("source={}", case.source));
         o.nontrivial = reached_parser(run) && script_bytes(case) > 0;
         o.label(format!("outcome={}", match &run.ended { Ended::Ok(_) => "Ok".to_string(), Ended::Err(k) => format!("Err({k:?})"), Ended::Panic(_) => "Panic".to_string() }));
-        if let Ended::Panic(p) = &run.ended {
+        if run.runaway {
+            o.fail(
+                format!("C01|runaway|{}", case.entry.sig_name()),
+                json!({"entry": case.entry, "operations": run.log.len(), "wire_head": render_log(&run.log[.. run.log.len().min(30)])}),
+            );
+        } else if let Ended::Panic(p) = &run.ended {
             o.fail(
                 format!("C01|panic|{}|{}", p.site(), p.class()),
                 json!({"entry": case.entry, "panic": p, "wire": render_log(&run.log[.. run.log.len().min(40)])}),
